@@ -35,6 +35,7 @@ def plan(tier, seed):
             cases += [{'op': k, 'leafs': t, 'part': [p, parts]} for p in range(parts)]
     pair_trees = [[[2, 3, 2], [2, 3, 2, 2]], [[2, 3], [2, 3, 2]], [[2, 2], [2, 2, 2]]] + ([[[3, 2, 2], [2, 2]], [[2, 1, 3], [2, 3, 1, 2]]] if tier == 'thorough' else [])
     pairs = [{'pairs': t, 'part': [p, 8]} for t in pair_trees for p in range(8)]
+    pairs += [{'pairs2': [2, 3, 4], 'part': [p, 16]} for p in range(16)]   # two-axis moves, every pairing, on one rank-3 leaf
     return [{'name': 'grid', 'target': TARGET, 'x64': False, 'cases': cases, 'chunk': 1},
             {'name': 'pairs', 'target': TARGET, 'x64': False, 'cases': pairs, 'chunk': 1}]
 
@@ -153,6 +154,37 @@ def run(phase, cases, ctx):
             violations.append({'kind': 'library-raises', 'case': one, 'detail': f'{err}\n{err.tb}'})
 
     for case in cases:
+        if 'pairs2' in case:
+            leaf = case['pairs2']
+            st = struct([leaf])
+            x = data(leaf, 3)
+            moves = [(list(s_), list(d_)) for s_ in itertools.permutations(range(3), 2) for d_ in itertools.permutations(range(3), 2)]
+            p, parts = case['part']
+            k = 0
+            for (s2, d2), (s1, d1) in itertools.product(moves, repeat=2):
+                k += 1
+                if k % parts != p:
+                    continue
+                one = dict(case, args=[s1, d1, s2, d2])
+                if 'args' in case and case['args'] != [s1, d1, s2, d2]:
+                    continue
+                counters['pair_products'] += 1
+                try:
+                    B = MoveAxisOperator(tuple(s2), tuple(d2), in_structure=st)
+                    A = MoveAxisOperator(tuple(s1), tuple(d1), in_structure=B.out_structure())
+                    want = np.moveaxis(np.moveaxis(x, s2, d2), s1, d1)
+                    red = CompositionOperator([A, B]).reduce()
+                    got = np.asarray(red.mv(jnp.asarray(x)))
+                    if got.shape != want.shape or not np.array_equal(got, want) or tuple(jax.tree.leaves(red.out_structure())[0].shape) != want.shape:
+                        violations.append({'kind': 'moveaxis-pair-reduced-wrongly', 'case': one,
+                                           'detail': f'MoveAxis({s1},{d1}) @ MoveAxis({s2},{d2}) on shape {leaf} reduces to {type(red).__name__} mapping to shape {got.shape} (declared {red.out_structure()}) instead of {want.shape}'})
+                    if isinstance(red, IdentityOperator):
+                        counters['pair_products_collapsed'] += 1
+                    nontrivial.add(json.dumps(one))
+                except Exception as e:  # noqa: BLE001
+                    err = P.LibError('moveaxis pair', e)
+                    violations.append({'kind': 'library-raises', 'case': one, 'detail': f'{err}\n{err.tb}'})
+            continue
         if 'pairs' in case:
             # every ordered pair of single-axis move-axis operators (all spellings in [-rmin, rmin)) on a two-leaf pytree whose
             # leaves have different ranks: (A @ B).reduce() must denote A after B, whatever the spellings
@@ -237,6 +269,8 @@ def run(phase, cases, ctx):
                     for i in range(len(t)):
                         targets.add(t[:i] + (-1,) + t[i + 1:])
                 targets |= {(size + 1,), (-1, size + 1), (-1, -1), (-2, size), (-1, -2)}
+                for k in range(2, size + 2):   # known sizes that fit in the leaf but may not divide it
+                    targets |= {(k, -1), (-1, k), (1, k, -1)}
             for t in sorted(targets):
                 if only is not None and list(t) != only:
                     continue
